@@ -48,7 +48,7 @@ def operations(nparts):
 
 def explore(run, tier):
     depth = 3 if tier == "thorough" else 2
-    seen = set()
+    seen = {}
     st = {"states": 0, "transitions": 0}
     initial = [{"nparts": n, "hist": []} for n in (0, 1, 2)]
 
@@ -61,11 +61,13 @@ def explore(run, tier):
         if key is None or not res.get("ok"):
             return
         k = (point["nparts"], key)
-        if k in seen:
-            return
-        seen.add(k)
-        st["states"] += 1
-        if len(point["hist"]) >= depth:
+        dep = len(point["hist"])
+        if k in seen and seen[k] <= dep:
+            return          # already expanded from the same or a shorter history
+        if k not in seen:
+            st["states"] += 1
+        seen[k] = dep
+        if dep >= depth:
             return
         for op in operations(point["nparts"]):
             if op["op"] == "remove" and max(op["rgs"]) >= res.get("nrg", 0):
